@@ -46,6 +46,7 @@ fn main() -> ExitCode {
         let (family, index, cs) = (parts[0], parse_u64(parts[1]), parse_u64(parts[2]));
         let item = plan.iter().find(|i| i.family == family).expect("family not in plan");
         let rep = (item.run)(&CaseCtx {
+            seed,
             property: pname,
             tier,
             family: item.family,
